@@ -6,6 +6,8 @@ import (
 	"time"
 
 	"github.com/ipfs/ipfs-cluster/api"
+
+	cid "github.com/ipfs/go-cid"
 	"github.com/ipfs/ipfs-cluster/state"
 )
 
@@ -92,6 +94,26 @@ type gatedState struct {
 func (s *gatedState) List(ctx context.Context) ([]*api.Pin, error) {
 	s.g.arrive()
 	return s.State.List(ctx)
+}
+
+type getGatedState struct {
+	state.State
+	g *ListGate
+}
+
+func (s *getGatedState) Get(ctx context.Context, c cid.Cid) (*api.Pin, error) {
+	s.g.arrive()
+	return s.State.Get(ctx, c)
+}
+
+// GateGets wraps the shared state so that Get calls pass through a second gate
+// (used to line up the PinGet of concurrent Unpin calls before any LogUnpin).
+func (s *SharedState) GateGets() *ListGate {
+	g := &ListGate{}
+	s.mu.Lock()
+	s.State = &getGatedState{State: s.State, g: g}
+	s.mu.Unlock()
+	return g
 }
 
 // GateLists wraps the shared state so that List calls pass through the gate.
